@@ -79,7 +79,9 @@ def run(tier, seed):
                      "the tangent of a flux surface comes from the analytic psi of the harness equilibria"]
     r0 = tlc.run_tlc("PolSpacing", "MC_PolSpacing.cfg", timeout=900, check=False)
     v.add_tlc(r0)
-    if not r0.ok:
+    if not r0.ok and r0.violated is None:
+        v.fail_machinery("TLC did not complete: %s" % r0.out[-1500:])
+    elif not r0.ok:
         v.violation("C10 engine=mc violated=%s" % r0.violated, "PolSpacing.tla violates %s" % r0.violated, {"tlc_tail": r0.out[-2000:]})
     d = scratch("c10")
     outp = os.path.join(d, "ps.json")
